@@ -110,6 +110,13 @@ def gen(ctx):
                 t += spacing
             arr.append((t, ("res", ("me",), 9)))
             out.append({"D": 800, "me": "a", "cancel": None, "arrivals": arr, "has_cb": True})
+    # 3c. the callback is any callable of the documented type Callable[..., Awaitable[None]], not necessarily an `async def`
+    for shape in ("lambda", "callable-object", "decorated", "partial"):
+        for raise_at in (None, 1):
+            arr = [(3, ("prog", True, 1)), (4, ("prog", False, 51)), (30, ("prog", True, 4)), (60, ("prog", True, 5)),
+                   (70, ("res", ("me",), 9))]
+            out.append({"D": 400, "me": "a", "cancel": None, "arrivals": arr, "has_cb": True, "cb_shape": shape,
+                        "cb_raise": set() if raise_at is None else {raise_at}})
     # 4. seeded mixtures
     for _ in range(ctx.budget(1500, 40000)):
         D = rng.choice((60, 100, 137, 250, 1000))
@@ -211,6 +218,68 @@ async def _blocked_write(D, cancel_at, has_response_at):
     return res
 
 
+async def _overlap(d_long, d_short, start_short, cancel_short):
+    """Two requests outstanding on ONE (read, write) pair, no traffic: each has its OWN deadline, counted from its own call,
+    and its own cancellation latency - a long request ahead does not postpone either."""
+    import asyncio
+    import importlib
+    import anyio
+    sm = importlib.import_module("chuk_mcp.protocol.messages.send_message")
+    in_send, in_recv = anyio.create_memory_object_stream(1000)
+    out_send, out_recv = anyio.create_memory_object_stream(1000)
+    loop = asyncio.get_running_loop()
+    t0 = loop.time()
+    TICK = A.TICK
+    res = {}
+    tok = sm.CancellationToken() if cancel_short is not None else None
+
+    async def call(name, D, delay, token):
+        await anyio.sleep(delay * TICK)
+        t_call = loop.time()
+        try:
+            await sm.send_message(in_recv, out_send, "tools/call", None, timeout=D * TICK, message_id=name, cancellation_token=token)
+            out = "returned"
+        except TimeoutError:
+            out = "timeout"
+        except sm.CancelledError:
+            out = "cancelled"
+        except Exception as e:          # noqa: BLE001
+            out = "exc:" + type(e).__name__
+        res[name] = (out, round((loop.time() - t_call) / TICK, 2))
+
+    async def canceller():
+        await anyio.sleep(cancel_short * TICK)
+        tok.cancel()
+
+    async with anyio.create_task_group() as tg:
+        tg.start_soon(call, "long", d_long, 0, None)
+        tg.start_soon(call, "short", d_short, start_short, tok)
+        if tok is not None:
+            tg.start_soon(canceller)
+    return res
+
+
+def check_overlapping_requests(ctx):
+    from vloop import vrun
+    for d_long, d_short, start, cancel in ((300, 50, 10, None), (300, 100, 0, None), (200, 60, 75, None), (300, 200, 10, 60),
+                                           (300, 200, 10, 35)):
+        r = vrun(_overlap, d_long, d_short, start, cancel)
+        case = {"two_requests_on_one_pair": True, "long_timeout": d_long, "short_timeout": d_short, "short_starts_at": start,
+                "short_cancelled_at": cancel}
+        ctx.case(case, nontrivial=True)
+        ctx.count("overlap:" + ("cancelled" if cancel is not None else "deadline"))
+        out, took = r["short"]
+        ctx.spec_total += 1
+        limit = d_short if cancel is None else min(d_short, (cancel - start) + 50)
+        want = "timeout" if cancel is None else "cancelled"
+        if took > limit + 0.5 or out != want:
+            ctx.spec_violation("deadline-or-cancellation-postponed-by-another-request-on-the-pair", case,
+                               f"the short request ended with {out} {took} ticks after it was issued (limit {limit}); the long one: {r['long']}")
+        ctx.spec_total += 1
+        if r["long"][1] > d_long + 0.5:
+            ctx.spec_violation("ended-after-deadline:two-requests-on-one-pair", case, f"the long request: {r['long']}")
+
+
 def check_blocked_write(ctx):
     from vloop import vrun
     for D in (100, 120):
@@ -243,6 +312,7 @@ def run(ctx):
         ctx.escalated = True
         explore(ctx, model, spec)
     check_blocked_write(ctx)
+    check_overlapping_requests(ctx)
     if ctx.thorough:
         lib.coqchk(ctx, "C14")
     ctx.rule = ("real send_message under a virtual clock: placements of cancel x response on the 10 ms grid in windows around t=0, 0.5 s, "
@@ -256,6 +326,11 @@ def run(ctx):
 
 def replay(ctx, data):
     _c = data.get("case") or {}
+    if _c.get("two_requests_on_one_pair"):
+        check_overlapping_requests(ctx)
+        for f in ctx.spec_fail:
+            print("REPRODUCED", f["class"], f["detail"][:300])
+        return 1 if ctx.spec_fail else 0
     if "write_stream" in _c:
         from vloop import vrun
         r = vrun(_blocked_write, _c["D"], _c["cancel"], _c["response_at"])
